@@ -84,7 +84,7 @@ def events():
 
 
 _VARIANTS = {}
-PATTERNS = ("all", "even_none", "first_none", "two_recordings")
+PATTERNS = ("all", "even_none", "first_none", "two_recordings", "reversed_times")
 
 
 def events_variant(pattern):
@@ -92,6 +92,13 @@ def events_variant(pattern):
     grouping is defined by the comparison function alone."""
     if pattern == "all":
         return events()
+    if pattern == "reversed_times" and pattern not in _VARIANTS:
+        # the events are given latest first (the geometries in reverse order): 'input order' is the order of the list, not of time
+        evs = events()
+        _VARIANTS[pattern] = [
+            data.SoundEvent(uuid=se.uuid, recording=se.recording, geometry=evs[len(evs) - 1 - i].geometry)
+            for i, se in enumerate(evs)
+        ]
     if pattern == "two_recordings" and pattern not in _VARIANTS:
         # every second event belongs to another recording: similarity is the comparison function's business alone
         other = recording(name="r2", path="/data/r2.wav", duration=100.0)
